@@ -86,9 +86,9 @@ func runC38(t *testing.T, tp *simrt.Tape, keepTrace bool) hx.Result {
 	res.Faults, res.Offered = map[string]int{}, map[string]int{}
 	docs := c38Docs()
 	a := c38Cfg{sizeMax: []int{100, 400, 1 << 20}[tp.Gen(3)], trigramMax: []int{50, 20000}[tp.Gen(2)], branches: []string{"HEAD"}, versions: []string{"v1"}, url: "http://example/inc", rawConfig: "1"}
-	if tp.Gen(3) == 0 {
-		a.largeFiles = []string{"*.dat"}
-	}
+	// LargeFiles is an ordered list: the last matching pattern wins and "!" negates
+	lfChoices := [][]string{nil, {"*.dat"}, {"*.dat", "!large.dat"}, {"!large.dat", "*.dat"}, {"*.dat", "!large.dat", "*.dat"}, {"*.txt", "*.dat"}}
+	a.largeFiles = lfChoices[[]int{0, 0, 1, 2, 3, 5}[tp.Gen(6)]]
 	if tp.Gen(3) == 0 {
 		a.branches, a.versions = []string{"HEAD", "dev"}, []string{"v1", "d1"}
 	}
@@ -105,7 +105,11 @@ func runC38(t *testing.T, tp *simrt.Tape, keepTrace bool) hx.Result {
 	contentChange, metaChange := false, false
 	nCh := tp.GenRange(0, 2)
 	for i := 0; i < nCh; i++ {
-		switch tp.Gen(8) {
+		kind := tp.Gen(10)
+		if kind >= 8 {
+			kind = 2
+		}
+		switch kind {
 		case 0:
 			v := []int{100, 400, 1 << 20}[tp.Gen(3)]
 			if v != b.sizeMax {
@@ -121,13 +125,30 @@ func runC38(t *testing.T, tp *simrt.Tape, keepTrace bool) hx.Result {
 				contentChange = true
 			}
 		case 2:
-			if len(b.largeFiles) == 0 {
-				b.largeFiles = []string{"*.dat"}
-			} else {
-				b.largeFiles = nil
+			nl := lfChoices[tp.Gen(len(lfChoices))]
+			if len(b.largeFiles) >= 2 && tp.Gen(2) == 0 {
+				// the same patterns in another order, or with one repeated at the end
+				if tp.Gen(2) == 0 {
+					nl = append([]string(nil), b.largeFiles...)
+					nl[0], nl[len(nl)-1] = nl[len(nl)-1], nl[0]
+				} else {
+					nl = append(append([]string(nil), b.largeFiles...), b.largeFiles[0])
+				}
 			}
-			changes = append(changes, "LargeFiles")
-			contentChange = true
+			if fmt.Sprint(nl) != fmt.Sprint(b.largeFiles) {
+				b.largeFiles = nl
+				changes = append(changes, "LargeFiles")
+				contentChange = true
+			}
+		case 7:
+			// the same branches at the same versions, listed in another order: branch
+			// order decides the branch mask bits and the version reported for a file
+			if len(b.branches) == 2 {
+				b.branches[0], b.branches[1] = b.branches[1], b.branches[0]
+				b.versions[0], b.versions[1] = b.versions[1], b.versions[0]
+				changes = append(changes, "branch-order")
+				contentChange = true
+			}
 		case 3:
 			b.versions[0] = b.versions[0] + "x"
 			changes = append(changes, "branch-version")
